@@ -89,3 +89,41 @@ func ZZ_C11_hpke_unmarshalled_context_owns_its_state() {
 		zzAssert(zzBytesEq(sb.sequenceNumber, seq0), "a second context decoded from the same bytes is not advanced by the first")
 	}
 }
+
+// C08: "a context restored from its marshalled form continues exactly where the original would":
+// for every sealer / opener state (exporter secret, key, base nonce and - in particular - every
+// 96-bit sequence number, all symbolic) MarshalBinary followed by UnmarshalSealer / UnmarshalOpener
+// yields a context with exactly the same fields.
+//
+//zz: prop=C08 tier=quick backend=bv timeout=300
+func ZZ_C08_marshal_unmarshal_preserves_context_state() {
+	c := &encdecContext{suite: Suite{KEM_X25519_HKDF_SHA256, KDF_HKDF_SHA256, AEAD_AES128GCM},
+		exporterSecret: make([]byte, 32), key: make([]byte, 16), baseNonce: make([]byte, 12), sequenceNumber: make([]byte, 12)}
+	zzFill("exporter", c.exporterSecret)
+	zzFill("key", c.key)
+	zzFill("baseNonce", c.baseNonce)
+	zzFill("seq", c.sequenceNumber)
+	var back *encdecContext
+	if zzPick("role", 0, 1) == 0 {
+		raw, err := (&sealContext{c}).MarshalBinary()
+		zzAssert(err == nil, "marshalling succeeds")
+		s, err := UnmarshalSealer(raw)
+		zzAssert(err == nil, "the marshalled sealer is accepted")
+		if err != nil {
+			return
+		}
+		back = s.(*sealContext).encdecContext
+	} else {
+		raw, err := (&openContext{c}).MarshalBinary()
+		zzAssert(err == nil, "marshalling succeeds")
+		o, err := UnmarshalOpener(raw)
+		zzAssert(err == nil, "the marshalled opener is accepted")
+		if err != nil {
+			return
+		}
+		back = o.(*openContext).encdecContext
+	}
+	zzAssert(zzBytesEq(back.sequenceNumber, c.sequenceNumber), "sequence number preserved (every value, also multiples of 256)")
+	zzAssert(zzAnd(zzBytesEq(back.baseNonce, c.baseNonce), zzBytesEq(back.key, c.key), zzBytesEq(back.exporterSecret, c.exporterSecret)), "base nonce, key and exporter secret preserved")
+	zzAssert(back.suite == c.suite, "suite preserved")
+}
